@@ -145,6 +145,20 @@ except AttributeError as e:
     traceback.print_exc()
     if src.startswith({root!r}):
         print("REPLAY: harness fake lacks attribute", repr(e)); sys.exit(3)
+    # an object the harness built with __new__ (skipping __init__) lacks an attribute that the class's own
+    # __init__ would have set: the harness under-initialised it for this (possibly restructured) code
+    try:
+        import re as _re2
+        obj, nm = getattr(e, "obj", None), getattr(e, "name", None)
+        if obj is not None and nm and not isinstance(obj, type):
+            for klass in type(obj).__mro__:
+                init = klass.__dict__.get("__init__")
+                if init is None or not hasattr(init, "__code__"):
+                    continue
+                if _re2.search(r"self\.%s\s*(=|:)" % _re2.escape(nm), inspect.getsource(init)):
+                    print("REPLAY: object built without __init__ lacks %r, which __init__ sets" % nm, repr(e)); sys.exit(3)
+    except (OSError, TypeError):
+        pass
     print("REPLAY: real code raised", repr(e)); sys.exit(1)
 except TypeError as e:
     # "f() missing/takes/got ..." where f is one of the harness's own stand-ins: the (possibly restructured)
